@@ -1870,7 +1870,10 @@ template< typename T, size_t N>
       auto const  dest_value = boost::lexical_cast< T>( list_val);
       if (mUniqueData)
       {
-         if (common::contains( mDestVar, dest_value))
+         // only the elements assigned so far are values, the rest of the array
+         // still holds whatever the application left there
+         if (std::find( mDestVar, mDestVar + mIndex, dest_value)
+             != mDestVar + mIndex)
          {
             if (mTreatDuplicatesAsErrors)
                throw std::runtime_error( "refuse to store duplicate values in"
@@ -2153,7 +2156,10 @@ template< typename T, size_t N>
       auto const  dest_value = boost::lexical_cast< T>( list_val);
       if (mUniqueData)
       {
-         if (common::contains( mDestVar, dest_value))
+         // only the elements assigned so far are values, the rest of the array
+         // still holds whatever the application left there
+         if (std::find( mDestVar.begin(), mDestVar.begin() + mIndex, dest_value)
+             != mDestVar.begin() + mIndex)
          {
             if (mTreatDuplicatesAsErrors)
                throw std::runtime_error( "refuse to store duplicate values in"
